@@ -371,6 +371,10 @@ def gen_case(rng, tier, k):
         r = rng.random()
         if r < 0.45:
             return ["err", rng.choice(ERR_VALUES)]
+        if r < 0.52:
+            # an error value that has no string conversion (a stream
+            # object): the hosts must survive reporting it
+            return ["erre", ["base", rng.choice(["stdout", "stdin"])]]
         return [rng.choice(["undef", "div0", "idx", "badcall"])]
 
     def gen_read(scope):
